@@ -119,6 +119,51 @@ Theorem mutation_scale_stays_positive_finite_in_range :
 Proof. exact rescale_keeps_pos_fin. Qed.
 Print Assumptions mutation_scale_stays_positive_finite_in_range.
 
+(** ** every record.  [next_meta_params] returns the user's override, an exploratory set, or the
+    meta parameters of a population member, mutated or not (shape regenerated from the source).
+    Population members were created under earlier seeds, so: if the meta parameters the oracle
+    stream hands out under seed [n] are generated that way from those of earlier seeds, then in
+    every reachable state of every run every record's adaptive probabilities are in [0,1]. *)
+From Cambrian Require Import CtlConf.
+Example next_meta_params_shape : next_meta_params_is_override_exploratory_or_selected = true.  Proof. reflexivity. Qed.
+
+Definition meta_gen (ov : option mparams) (earlier : mparams -> Prop) (m : mparams) : Prop :=
+  (exists mo, ov = Some mo /\ m = mo) \/
+  (exists f1 f2 f3 f4, m = exploratory f1 f2 f3 f4) \/
+  (exists m0, earlier m0 /\ (m = m0 \/ exists f1 f2 f3 f4, m = meta_mutate m0 f1 f2 f3 f4)).
+
+Lemma oracle_metas_valid (V : Type) (ov : option mparams) (os : N -> orc V mparams) :
+  (forall mo, ov = Some mo -> m_valid mo = true) ->
+  (forall n, meta_gen ov (fun m0 => exists k, (k < n)%N /\ m0 = o_meta (os k)) (o_meta (os n))) ->
+  forall n, m_valid (o_meta (os n)) = true.
+Proof.
+  intros Hov Hgen n. induction n as [n IH] using (well_founded_induction N.lt_wf_0).
+  destruct (Hgen n) as [(mo & Eo & ->)|[(f1 & f2 & f3 & f4 & ->)|(m0 & (k & Hk & ->) & [->|(f1 & f2 & f3 & f4 & ->)])]].
+  - apply Hov. exact Eo.
+  - apply exploratory_valid. reflexivity.
+  - apply IH. exact Hk.
+  - apply meta_mutate_valid; [reflexivity|]. apply IH. exact Hk.
+Qed.
+
+Theorem every_record_has_valid_probabilities :
+  forall (V T : Type) (tcmp : T -> T -> comparison) (mean : list T -> T) (hit : T -> bool)
+         (max_pop min_reeval ss : nat) (nc : N) (budget : option N) (init_val : V)
+         (ov : option mparams) (os : N -> orc V mparams),
+    (forall mo, ov = Some mo -> m_valid mo = true) ->
+    (forall n, meta_gen ov (fun m0 => exists k, (k < n)%N /\ m0 = o_meta (os k)) (o_meta (os n))) ->
+    forall (ls : list (label T)),
+    match exec tcmp mean hit max_pop min_reeval ss budget init_val os
+               (init T min_reeval ss nc budget init_val os) ls with
+    | Cont c | Ret c _ => forall it m, In it (c_items c) -> it_meta it = Some m -> m_valid m = true
+    | _ => True
+    end.
+Proof.
+  intros V T tcmp mean hit max_pop min_reeval ss nc budget init_val ov os Hov Hgen ls.
+  apply (item_metas_good V mparams T tcmp mean hit max_pop min_reeval ss nc budget init_val os
+           (fun m => m_valid m = true) (oracle_metas_valid V ov os Hov Hgen) ls).
+Qed.
+Print Assumptions every_record_has_valid_probabilities.
+
 Example meta_valid_somewhere : m_valid expl_base = true /\ fin (m_mscale expl_base) = true.
 Proof. vm_compute. split; reflexivity. Qed.
 Example scale_range_nonvacuous : fle tame_lo (m_mscale expl_base) = true /\ fle (m_mscale expl_base) tame_hi = true.
